@@ -23,6 +23,8 @@ ClassOK(h, v, placeholder) ==
     [] h.c = "float"  -> TRUE
     [] h.c = "bool"   -> TRUE
     [] h.c = "name"   -> TRUE
+    [] h.c = "graphtext" -> TextOK(v, h.a)
+    [] h.c = "difftext"  -> DiffTextOK(v, h.a, h.b)
     [] h.c = "item"   -> TRUE
     [] h.c = "between" -> /\ Range(h.a) \subseteq Range(v) /\ Range(v) \subseteq Range(h.b)
                           /\ \A i \in 1..(Len(v) - 1) : v[i] < v[i + 1]
